@@ -60,7 +60,7 @@ impl Opd {
             Opd::Dv(i) => {
                 let mut d = v1::DecisionVariable::default();
                 d.id = *i;
-                d.kind = KIND_CONTINUOUS;
+                d.kind = if *i == 4 { KIND_BINARY } else { KIND_CONTINUOUS };
                 if *i % 2 == 0 {
                     // metadata of the variable must not change what `x_i` means as an operand
                     d.substituted_value = Some(3.0);
@@ -504,7 +504,7 @@ pub fn pools(tier: Tier) -> std::collections::BTreeMap<Kind, Vec<Opd>> {
     let t = tier == Tier::Thorough;
     let mut m = std::collections::BTreeMap::new();
     m.insert(Kind::Num, [0.0, -1.0, 0.5, 3.0].iter().map(|c| Opd::Num(*c)).collect::<Vec<_>>());
-    m.insert(Kind::Dv, vec![Opd::Dv(1), Opd::Dv(2)]);
+    m.insert(Kind::Dv, vec![Opd::Dv(1), Opd::Dv(2), Opd::Dv(4)]);
     m.insert(Kind::Par, vec![Opd::Par(10), Opd::Par(2)]);
     let lins: Vec<FnRep> = if t {
         let mut v = gen_linear(&IDS3, &[1.0, -0.5, 0.0], &[0.0, 2.0], 2);
